@@ -61,7 +61,9 @@ def units(tier, seed):
     if (po, pk, nd) in ((0, 0, 0), (1, 1, 1), (0, 2, 0)) and po <= b['max_po']:
       out.append(('K', sig, b['vcap']))
   # cheapest first so the first counterexample is the simplest
-  out.sort(key=lambda u: (u[1][0] + u[1][1] + len(u[1][4]), u[1][3], u))
+  # biggest state spaces first (load balance); the minimal witness per
+  # violation class is selected by the runner, not by visiting order.
+  out.sort(key=lambda u: (u[0] != "P", -(u[1][0] + u[1][1]), not u[1][3], u))
   return out
 
 
@@ -183,23 +185,29 @@ def raw_class(x, n):
 
 
 def slice_alphabet(model):
-  """One representative per (CPython normal form, raw-form class)."""
+  """Representatives: one per CPython normal form (index list, or insertion
+  point for empty ranges, with step) and one per raw-form class (how start and
+  stop are spelled: None / VARARGS / negative / in range / out of range, and
+  the sign of the step) -- the two things Fiddle's own code branches on."""
   n = model.P + len(model.V)
   pts = [None] + ([M.VA] if model.has_var else []) + list(
       range(-(n + 1), n + 2))
-  seen = set()
+  seen_norm = set()
+  seen_raw = set()
   out = []
-  for step in (None, 1, 2, -1, -2):
+  for step in (None, 1, -1, 2, -2):
+    sgn = 'N' if step is None else ('+' if step > 0 else '-')
     for start in pts:
       for stop in pts:
         rs = model.P if start == M.VA else start
         re = model.P if stop == M.VA else stop
         norm = slice(rs, re, step).indices(n)
-        k = (tuple(range(*norm)) or ('empty', norm[0]),
-             raw_class(start, n), raw_class(stop, n), step)
-        if k in seen:
+        kn = (tuple(range(*norm)) or ('empty', norm[0]), norm[2])
+        kr = (raw_class(start, n), raw_class(stop, n), sgn)
+        if kn in seen_norm and kr in seen_raw:
           continue
-        seen.add(k)
+        seen_norm.add(kn)
+        seen_raw.add(kr)
         out.append([start, stop, step])
   return out
 
@@ -231,12 +239,15 @@ def positional_ops(model, b):
         ops.append(('sets', [M.VA, None, None], list(rhs)))
   else:
     ops.append(('gets', [M.VA, None, None]))   # counted as skipped
-  probes = [[], [X], [X, Y], [X, Y, Z]][:b['rhs_len'] + 1]
+  probes = [[], [X], [X, Y], [X, Y, Z], [X, Y, Z, X]]
   for s in slice_alphabet(model):
     ops.append(('gets', s))
     ops.append(('dels', s))
-    for rhs in probes:
-      ops.append(('sets', s, rhs))
+    sl = slice(*[model.P if x == M.VA else x for x in s])
+    k = len(range(*sl.indices(n)))
+    for ln in sorted({0, k - 1, k, k + 1}):
+      if 0 <= ln <= b['rhs_len'] + 1:
+        ops.append(('sets', s, probes[ln]))
   return ops
 
 
@@ -350,12 +361,17 @@ def explore(sig, phase, b, res, first_only=True):
           f'direct construction: {c1} vs {c2}',
           {'sig': list(sig), 'init': list(init), 'hist': hist, 'op': None})
     ops = positional_ops(model, b) if phase == 'P' else keyword_ops(model, b)
+    # The live config is reused for the next operation only while the light
+    # observation shows it is still in this state (reads, rejected edits).
+    live = None
     for op in ops:
       st, val, nm = model.apply(op, NO_VALUE)
       if st == 'skip':
         res.counters['skipped_out_of_domain'] += 1
         continue
-      cfg = materialize(sig, init, hist)
+      if live is None:
+        live = materialize(sig, init, hist)
+      cfg = live
       rst, rval = real_apply(cfg, op)
       res.transitions += 1
       cls = classify(op, model)
@@ -383,12 +399,14 @@ def explore(sig, phase, b, res, first_only=True):
           if st == 'raise' or (st == 'either' and rst == 'raise'):
             cls += '-after-rejected-edit'
       if what is not None:
+        live = None
         res.violation(
             f'C03/{cls}',
             f'sig={S.sig_name(sig)} state={model.key()} op={op}: {what}',
             {'sig': list(sig), 'init': list(init), 'hist': hist, 'op': op})
         continue
       if post is not model:
+        live = None
         k = post.key()
         if k not in seen and len(post.V) <= b['vcap'] and all(
             v in allowed for v in itertools.chain(
@@ -479,3 +497,16 @@ def _safe(f):
     return f()
   except Exception as e:  # pylint: disable=broad-except
     return f'<raised {type(e).__name__}: {e}>'
+
+TECHNIQUE = ('explicit-state model checking: BFS over the real Buildable '
+             'edit operations against a list+dict reference model')
+LEVEL_TEXT = ('Every reachable reference-model state of every signature in '
+              'the bounded alphabet is visited; in each state every operation '
+              'of the (deduplicated) complete alphabet is executed on a real '
+              'fdl.Config and compared with the model (outcome, returned '
+              'value, all public observables, state after rejected edits). '
+              'Exhaustive within the stated bounds, not a sample.')
+LEVEL_NOTE = ('Trusted: the reference model mc/argmodel.py (CPython list '
+              'semantics + dict), the slice de-duplication argument (CPython '
+              'slice.indices normal form x raw spelling class), bounds: <=2 '
+              'params of a kind, *args length <= 2/3, two values.')
